@@ -44,6 +44,8 @@ RULES = [
     "R5 a LALRPOP action expression is wrapped as the body of `fn <rule>_action(tok: &str) -> T` with `<>` replaced by `tok`",
     "R8 the initializer expression of a named `let` statement inside a function body may be copied and wrapped as the body of a function whose "
     "parameters are the free variables of that expression (used for the kernels of host operations whose enclosing function uses slice patterns)",
+    "R9 a by-value parameter `p: Vec<T>` may become `p: &[T]` when the scanner proves every use of p in the body is `p.as_slice()` or `&p` "
+    "(CBMC does not terminate on the drop glue of heap-stored recursive syntax; the harness supplies `as_slice` on slices as the identity)",
     "R6 a trait-impl method may be emitted inside an inherent impl (Verus forbids requires on trait impls); its text is unchanged",
     "R7 `Self::` / `Self` may be replaced by the concrete type name when a method is lifted out of its impl (option self_ty)",
 ]
@@ -350,6 +352,11 @@ def extract_fn(repo, header, contract, ex, body_only=False):
             opts['break_to_return'] = True
             cur = None
             continue
+        m = re.match(r'^vec_as_slice\s+(\w+)$', l)
+        if m:
+            opts.setdefault('vec_as_slice', []).append(m.group(1))
+            cur = None
+            continue
         if l == 'nopub':
             opts['nopub'] = True
             cur = None
@@ -389,6 +396,31 @@ def extract_fn(repo, header, contract, ex, body_only=False):
         head = _pubify_item(head)
     if opts['name']:
         head = re.sub(r'\bfn\s+' + re.escape(name) + r'\b', 'fn ' + opts['name'], head, count=1)
+    for pn in opts.get('vec_as_slice', []):
+        # R9: parameter `p: Vec<T>` becomes `p: &[T]` -- only if every use of p in the body is `p.as_slice()` or `&p`
+        pm = re.search(r'\b' + re.escape(pn) + r'\s*:\s*Vec<', head)
+        if not pm:
+            raise ExtractError(f'{label}: R9: parameter {pn}: Vec<..> not found')
+        uses = [u for u in re.finditer(r'\b' + re.escape(pn) + r'\b', rsscan.mask(body))]
+        bm = rsscan.mask(body)
+        for u in uses:
+            after = bm[u.end():u.end() + 12]
+            before = bm[max(0, u.start() - 1):u.start()]
+            if not (after.startswith('.as_slice()') or before == '&'):
+                raise ExtractError(f'{label}: R9 side condition failed: `{pn}` is used other than as `{pn}.as_slice()` / `&{pn}`')
+        # find the closing '>' of Vec<...>
+        st = pm.end()
+        depth = 1
+        k = st
+        while k < len(head) and depth:
+            if head[k] == '<':
+                depth += 1
+            elif head[k] == '>':
+                depth -= 1
+            k += 1
+        inner = head[st:k - 1]
+        head = head[:pm.start()] + f'{pn}: &[{inner}]' + head[k:]
+        ex.rewrites.append(f'{label}: parameter `{pn}: Vec<{inner}>` -> `{pn}: &[{inner}]` (R9)')
     for an in opts.get('assoc', []):
         # R7: `Self::<Assoc>` in the signature is replaced by the definition `type <Assoc> = T;` copied from the same impl
         try:
